@@ -96,6 +96,11 @@ CHECKS = {
          "Scenarios with 0..16 connections each just accepted / idle keep-alive / half-sent / short handler / handler blocked on a harness gate / 6 MB response with a stalled reader / WebSocket open, pools of 1..8 threads (often fully occupied with queued connections), the signal sent before the first connection (even before run), after the states are established, or concurrently with a burst of connects, on 127.0.0.x, 0.0.0.0 and [::] with explicit ports. Before the signal a probe must be served (when a worker is free); after it App::run must return Ok within 10 s (on expiry one extra connection is made to pinpoint a lost wake-up), the same address must bind again immediately, and every request whose handler had started before the signal must still receive its complete response once the gate opens.",
          "Timing is sampled, not controlled; bounded time is the property, judged with a 10 s margin. Requests that were sent but whose handler had not started at the signal (still in the listen backlog or queued) are not required to be answered. Threaded runtime only so far.",
          "DESIGN.md §5 C20"),
+ "C08": ("exploration",
+         "stateful proptest generation of pool scenarios (workers, tasks with panic flags, lifecycle) run on the real scheduler with generated delays; history invariants over start/finish records, witness batch, thread-exit guards",
+         "Scenarios of 1..8 workers, up to 12 tasks each with a panic flag and a busy time, an optional witness batch of N tasks that each wait for the other N-1 to have started, a second round of tasks (a restarted worker panicking again), ended by stop()+drop or by drop alone. Invariants: every submitted task starts exactly once and, unless it panics, finishes exactly once; tasks queued before or after a panic still run; the witness completes (the pool is back to N usable workers); never more than N tasks between start and finish; stop/drop return within 10 s; afterwards every worker thread that ran a task exits (observed through thread-local exit guards).",
+         "Stress mode: interleavings are those the OS scheduler produces plus generated submission gaps; a race can be missed but not falsely reported. (A controlled-scheduler mode through the H-pool shim is planned; see DESIGN.md §3.)",
+         "DESIGN.md §5 C08"),
 }
 
 NOT_YET = "check not built yet (work in progress; see DESIGN.md §5 for the intended design)"
